@@ -116,6 +116,17 @@ class GenericRules(unittest.TestCase):
         self.assertIn("VIOLATED", self.run_named("falsy_defaults", "best_by_truthiness"))
         self.assertNotIn("VIOLATED", self.run_named("falsy_defaults", "best_by_is_none"))
 
+    def test_in_place_update_of_a_result_returned_twice(self):
+        from vstat import paths
+        inv = paths.known_functions()
+        saved = paths._INVENTORY
+        paths._INVENTORY = set(inv or ()) | {"mini.core._twice"}       # a function the rules know by name is not looked through
+        try:
+            self.assertEqual(self.run_named("aliased_results", "scales_a_twin_in_place"), ["VIOLATED"])
+            self.assertEqual(self.run_named("aliased_results", "scales_a_copy"), ["DISCHARGED"])
+        finally:
+            paths._INVENTORY = saved
+
     def test_gather_with_the_permutation_itself_is_reported(self):
         self.assertEqual(self.run_rule("nested_windows_wrong"), ["VIOLATED"])
 
